@@ -183,6 +183,8 @@ def run(model: RepoModel, rep, tier: str):
                        "refreshed field/element maps into the copy it creates, never into the state it copied from", 6)
     check_side_pairing(model, rep, "C08.R9", ["core/stmt_states.py", "core/global_stmt_states.py", "core/resolver.py"])
     _r9_widening_keeps_children(model, rep)
+    from ..generic import check_dict_merge_in_loops
+    check_dict_merge_in_loops(model, rep, "C08.R9", ["core/stmt_states.py", "core/global_stmt_states.py", "core/prelim_semantics.py", "core/resolver.py"])
     check_copy_on_write(model, rep, "C08.R9", [c for c in model.module("core/resolver.py").classes.values() if c.name == "Resolver"])
     from ..generic import check_accumulators
 
